@@ -82,7 +82,7 @@ Proof.
          [intros w; unfold upd; destruct (Nat.eqb w v) eqn:Ew; simpl; auto; apply Nat.eqb_eq in Ew; subst; auto
          |intros w y Hw Hy; unfold upd; destruct (Nat.eqb_spec w v) as [->|Hne]; simpl; auto;
           rewrite ?Ct; intros Hp; try congruence; try tauto]).
-    + destruct (is_perm perm (ins c v)) eqn:Hp; [|discriminate]. inv_some.
+    + destruct (is_perm perm (ins c v)) eqn:Hp; [|discriminate]. destruct (par_sorted c perm); [|discriminate]. cbn [andb] in *. inv_some.
       destruct (is_perm_in _ _ Hp (nodup_ins c v)) as [Hin _].
       apply ghost_frame with (s := s); auto; simpl.
       * intros w; unfold upd; destruct (Nat.eqb w v) eqn:Ew; simpl; auto; apply Nat.eqb_eq in Ew; subst; auto.
@@ -120,12 +120,12 @@ Proof.
       * intros w y' Hw Hy'; unfold upd; destruct (Nat.eqb_spec w v) as [->|Hne]; simpl; auto. tauto.
   - (* AEndRound *)
     simpl. destruct (ct (ns s v)) as [|todo0 saw| |] eqn:Ct; try discriminate.
-    destruct todo0; try discriminate. inv_some.
     destruct (n6 _ _ eq_refl) as [_ [_ Hsl]].
-    apply ghost_frame with (s := s); auto; simpl.
-    + intros w; unfold upd; destruct (Nat.eqb w v) eqn:Ew; simpl; auto; apply Nat.eqb_eq in Ew; subst; auto.
-    + intros w y Hw Hy; unfold upd; destruct (Nat.eqb_spec w v) as [->|Hne]; simpl; auto.
-      rewrite Ct. destruct saw; simpl; tauto.
+    destruct saw; [destruct (forallb (epar c) todo0); try discriminate|destruct todo0; try discriminate]; cbn [andb] in *; inv_some;
+    (apply ghost_frame with (s := s); auto; simpl;
+     [ intros w; unfold upd; destruct (Nat.eqb w v) eqn:Ew; simpl; auto; apply Nat.eqb_eq in Ew; subst; auto
+     | intros w y Hw Hy; unfold upd; destruct (Nat.eqb_spec w v) as [->|Hne]; simpl; auto;
+       rewrite Ct; simpl; tauto ]).
   - (* AHand *)
     destruct (ct (ns s v)) eqn:Ct; try discriminate.
     destruct (rn (ns s v)) eqn:Rn; try discriminate. inv_some.
